@@ -299,9 +299,47 @@ def run_one(k, mut, anch, ncpu, tier_escalate):
         shutil.rmtree(wt, ignore_errors=True)
 
 
+def recheck_one(k, res, ncpu):
+    """a survivor of the anchored checks: does any OTHER check notice it?  (the anchors of properties.jsonl name the files a
+    property is about, not every file its checks execute)"""
+    anch = anchors()
+    mut = next((m for m in enumerate_mutants([res["file"]])
+                if (m["line"], m["op"], m["detail"], m["text"]) == (res["line"], res["op"], res["detail"], res["text"])), None)
+    out = dict(res)
+    if mut is None:
+        out["recheck"] = "mutant-not-found"
+        return out
+    others = sorted(set(COST) - set(anch.get(res["file"], [])), key=lambda p: COST[p])
+    r = run_one(10000 + k, mut, {res["file"]: others}, ncpu, False)
+    out["recheck"] = r["outcome"]
+    out["recheck_killed_by"] = r.get("killed_by")
+    out["recheck_verdict"] = r.get("verdict")
+    out["recheck_wall_s"] = r.get("wall_s")
+    return out
+
+
+def recheck(path, jobs):
+    rows = [json.loads(l) for l in open(path)]
+    surv = [r for r in rows if r["outcome"] == "survivor"]
+    outp = path.replace(".jsonl", "-recheck.jsonl")
+    done = set()
+    if os.path.exists(outp):
+        done = {(d["file"], d["line"], d["op"], d["detail"]) for d in map(json.loads, open(outp))}
+    todo = [r for r in surv if (r["file"], r["line"], r["op"], r["detail"]) not in done]
+    print("survivors: %d, to re-check against the other checks: %d" % (len(surv), len(todo)), flush=True)
+    os.makedirs(SCRATCH, exist_ok=True)
+    ncpu = max(2, 16 // jobs)
+    with ThreadPoolExecutor(jobs) as ex, open(outp, "a") as f:
+        for o in ex.map(lambda kr: recheck_one(kr[0], kr[1], ncpu), enumerate(todo)):
+            f.write(json.dumps(o) + "\n")
+            f.flush()
+            print("%-9s %s:%s %s -> %s %s" % (o["recheck"], o["file"], o["line"], o["op"], o.get("recheck_killed_by") or "",
+                                             (o.get("recheck_verdict") or "")[:120]), flush=True)
+
+
 def main():
     ap = argparse.ArgumentParser()
-    ap.add_argument("cmd", choices=["list", "run", "report"])
+    ap.add_argument("cmd", choices=["list", "run", "report", "recheck"])
     ap.add_argument("arg", nargs="?")
     ap.add_argument("--files", nargs="*")
     ap.add_argument("--sample", type=int, default=100)
@@ -319,6 +357,9 @@ def main():
         return
     if a.cmd == "report":
         report(a.arg or a.out)
+        return
+    if a.cmd == "recheck":
+        recheck(a.arg or a.out, a.jobs)
         return
     muts = enumerate_mutants(files)
     if a.ops:
